@@ -116,6 +116,11 @@ def rule_a(ctx):
             if missing:
                 raise AnalysisError('C04.a: cannot find %s in an iteration (header_length=%d)' % (missing, h))
             unconsumed = [k for k in ('dropped', 'decrement') if k not in forms]
+            if unconsumed and (not forms['parsed_lo'].is_const() or _cursor_form(f)):
+                # the decoded slice starts at a variable: the parser walks its buffer with a cursor and drops what it
+                # consumed elsewhere - a form these rules were not written for; they do not guess
+                raise AnalysisError('C04.a: the parser decodes buffer[%r:...]: a cursor-based receive loop is outside '
+                                    'the idiom table of the chunking rules' % forms['parsed_lo'])
             if unconsumed:
                 # a full trip round the loop that handed a frame to the decoder but did not take it out of the buffer
                 results.setdefault(h, []).append((False, 'an iteration decodes a frame and goes round without %s: '
@@ -268,6 +273,23 @@ def rule_d(ctx):
             detail or 'extend(data) exactly once on all %d paths' % n)
 
 
+
+def _cursor_form(f):
+    """The receive loop hands the decoder a slice whose lower bound moves with a variable the loop itself advances: the
+    parser walks its buffer with a cursor instead of cutting the consumed frame off."""
+    for loop in [n for n in walk_local(f.node) if isinstance(n, ast.While)]:
+        assigned = {x.id for st in loop.body for x in ast.walk(st) if isinstance(x, ast.Name) and
+                    isinstance(x.ctx, ast.Store)}
+        for c in ast.walk(loop):
+            if isinstance(c, ast.Call) and isinstance(c.func, ast.Name) and c.func.id == 'parse_or_ignore' and c.args and \
+                    isinstance(c.args[0], ast.Subscript) and isinstance(c.args[0].slice, ast.Slice) and \
+                    c.args[0].slice.lower is not None:
+                if {x.id for x in ast.walk(c.args[0].slice.lower) if isinstance(x, ast.Name)} & assigned:
+                    return True
+    return False
+
+
+
 def rule_e(ctx):
     rep = ctx.report
     c, f = _receive(ctx)
@@ -292,6 +314,10 @@ def rule_e(ctx):
             ys = [e for e in p.events if e.kind == 'yield' and e.seq > raised[0].seq and
                   (not adv or e.seq < adv[0].seq)]
             if not adv:
+                arg = strip_epoch(calls[0].data['args'][0].term) if calls[0].data.get('args') else None
+                if _cursor_form(f) or (arg is not None and arg[0] == 'item' and arg[2][0] == 'slice' and
+                                       arg[2][1][0] not in ('const',) and 'header_length' not in repr(arg[2][1])):
+                    raise AnalysisError('C04.e: cursor-based receive loop: outside the idiom table of the chunking rules')
                 ok, detail = False, 'after a decoder exception the undecodable frame is not dropped from the buffer'
             elif len(ys) != 1:
                 ok, detail = False, 'a decoder exception yields %d markers' % len(ys)
@@ -598,5 +624,59 @@ def rule_queue_items(ctx):
 
 
 
+
+def rule_buffer_never_emptied(ctx):
+    """C04.n  Bytes leave the parser's buffer only as the consumed prefix of a frame.  Between two reads the buffer holds
+    the beginning of the next frame - possibly only one or two bytes of its length prefix; a statement that empties the
+    buffer (`clear()`, an empty bytes / bytearray assigned to it) throws those bytes away and every later frame is
+    mis-delimited.  In receive_data such a statement is allowed only under a test that everything received has been
+    consumed (an `==` / `>=` / `<=` comparison between a position and the number of bytes held)."""
+    rep = ctx.report
+    c, f = _receive(ctx)
+    buf_attr = ctx.cache.get('parser_buf') or '_buffer'
+    parents = {}
+    for x in ast.walk(f.node):
+        for ch in ast.iter_child_nodes(x):
+            parents[ch] = x
+    bad = []
+    n = 0
+    for x in walk_local(f.node):
+        empt = None
+        if isinstance(x, ast.Call) and isinstance(x.func, ast.Attribute) and x.func.attr == 'clear' and \
+                isinstance(x.func.value, ast.Attribute) and x.func.value.attr == buf_attr:
+            empt = x
+        if isinstance(x, ast.Assign) and any(isinstance(t, ast.Attribute) and t.attr == buf_attr for t in x.targets):
+            n += 1
+            v = x.value
+            if (isinstance(v, ast.Constant) and v.value in (b'', None)) or (
+                    isinstance(v, ast.Call) and isinstance(v.func, ast.Name) and v.func.id in ('bytearray', 'bytes') and
+                    not v.args):
+                empt = x
+        if isinstance(x, ast.Delete):
+            n += 1
+        if empt is None:
+            continue
+        guarded = False
+        y = empt
+        while y in parents:
+            p = parents[y]
+            if isinstance(p, ast.If) and any(y is b or y in list(ast.walk(b)) for b in p.body) and \
+                    isinstance(p.test, ast.Compare) and len(p.test.ops) == 1 and \
+                    isinstance(p.test.ops[0], (ast.Eq, ast.GtE, ast.LtE)) and \
+                    any(w in ast.unparse(p.test) for w in ('len(', 'total')):
+                guarded = True
+            y = p
+        if not guarded:
+            bad.append(empt)
+    for e in bad:
+        rep.bad('C04.n', 'FrameParser.receive_data / line %d empties the buffer' % e.lineno, f,
+                'the buffer is emptied without a test that everything received was consumed: the first bytes of a '
+                'frame that has started to arrive (one or two bytes of a length prefix) are thrown away')
+    if not bad:
+        rep.ok('C04.n', 'FrameParser.receive_data / bytes leave the buffer only as a consumed prefix', f,
+               'no statement empties the buffer')
+
+
+
 RULES = [('C04.a', rule_a), ('C04.b', rule_b), ('C04.c', rule_c), ('C04.d', rule_d), ('C04.e', rule_e),
-         ('C04.f', rule_f), ('C12.e', rule_g), ('C12.a', rule_h), ('C04.g', rule_i), ('C04.h', rule_j), ('C04.i', rule_k), ('C02.h', rule_decoder_entry), ('C04.j', rule_marker_queues), ('C04.k', rule_decoded_frames_yielded), ('C04.l', rule_short_fields_fail), ('C04.m', rule_queue_items)]
+         ('C04.f', rule_f), ('C12.e', rule_g), ('C12.a', rule_h), ('C04.g', rule_i), ('C04.h', rule_j), ('C04.i', rule_k), ('C02.h', rule_decoder_entry), ('C04.j', rule_marker_queues), ('C04.k', rule_decoded_frames_yielded), ('C04.l', rule_short_fields_fail), ('C04.m', rule_queue_items), ('C04.n', rule_buffer_never_emptied)]
